@@ -656,6 +656,12 @@ def l2_suite(profile, quick=60, thorough=1500, native=True, name=None, extra_mon
                                                       what='probe ' + c.split()[2] + ': ' + ' '.join(a.split()[2:])[:400]))
                 continue
             mline, spec = split_spec(model[k] if k < len(model) else '<missing>')
+            if 'LAYOUT-VIOLATION:' in a:
+                # the node-level invariant of the Coq development (level discipline, link counts, key
+                # order, no empty node) checked on what the implementation stored (harness layoutCheck)
+                res.property_failures.append(dict(suite=res.name, case=c[:3000], impl=a[-600:],
+                    what='a version under current/ at the end of the history is not a well-formed tree on its own: '
+                         + a.split('LAYOUT-VIOLATION:')[1].split()[0]))
             a2, pairs = cmpmod.split_native(a)
             iops = [x.split() for x in cmpmod.canon(a2, False).split(' ; ')]
             mops = [x.split() for x in cmpmod.canon(mline, False).split(' ; ')]
